@@ -10,6 +10,7 @@ import (
 	"context"
 	"encoding/binary"
 	"fmt"
+	"strings"
 	"sync"
 	"sync/atomic"
 	"testing"
@@ -135,6 +136,7 @@ func runOnce(c Case) outcome {
 	}
 	defer srv.Shutdown()
 	e := &env{srv: srv}
+	caseStart := time.Now()
 	var notified sync.Map // connections that were sent the close notification: the server no longer serves them
 	srv.Handler = func(s *peer.Server, r *peer.Req) {
 		if _, gone := notified.Load(r.Conn); gone {
@@ -290,7 +292,7 @@ func runOnce(c Case) outcome {
 		}
 		_, _, ev1 := srv.Snapshot()
 		if n := countAccepted(ev1) - accepted0; n > 1 {
-			return outcome{f: stat.Failf("extra-connections", "round %d (%s): the client opened %d new connections for one server-side close", ri, rd.Close, n)}
+			return outcome{f: stat.Failf("extra-connections", "round %d (%s): the client opened %d new connections for one server-side close; history: %s", ri, rd.Close, n, history(srv, caseStart))}
 		}
 		if rd.Settle {
 			time.Sleep(1150 * time.Millisecond)
@@ -303,11 +305,26 @@ func runOnce(c Case) outcome {
 			}
 			_, _, ev2 := srv.Snapshot()
 			if n := countAccepted(ev2) - accepted0; n > 1 {
-				return outcome{f: stat.Failf("extra-connections", "round %d (%s): %d new connections after one server-side close (a healthy connection was dropped)", ri, rd.Close, n)}
+				return outcome{f: stat.Failf("extra-connections", "round %d (%s): %d new connections after one server-side close (a healthy connection was dropped); history: %s", ri, rd.Close, n, history(srv, caseStart))}
 			}
 		}
 	}
 	return outcome{}
+}
+
+// history renders the server's connection events and requests relative to t0 (diagnostics
+// for schedule-dependent failures, which cannot be replayed).
+func history(srv *peer.Server, t0 time.Time) string {
+	reqs, _, ev := srv.Snapshot()
+	var b strings.Builder
+	for _, e := range ev {
+		fmt.Fprintf(&b, "[%+dms conn %d %s] ", e.At.Sub(t0).Milliseconds(), e.Conn, e.What)
+	}
+	b.WriteString("| requests: ")
+	for _, r := range reqs {
+		fmt.Fprintf(&b, "[%+dms conn %d %s id %d] ", r.At.Sub(t0).Milliseconds(), r.Conn, r.Func, r.ID)
+	}
+	return b.String()
 }
 
 func countAccepted(ev []peer.ConnEvent) int {
